@@ -105,10 +105,12 @@ Theorem C18_all_clauses_concrete :
 Proof. exact (fun cl => clause_holds_all convert dval_eqb xcls_eqb cl dval_eqb_refl xcls_eqb_refl). Qed.
 Print Assumptions C18_all_clauses_concrete.
 
-(* The only exceptions a download outcome can raise out of the owning lookup (both documented as defects of the
-   conversion, not of the cache): a defusedxml refusal, and AttributeError for a root element holding only text. *)
-Theorem C18_escaping_exceptions : forall (o : outcome) (x : xcls), convert o = RExc x -> x = XHostile \/ x = XAttr.
-Proof. exact convert_exceptions. Qed.
+(* No download outcome makes the owning lookup raise: HTTP errors, transport errors, unparsable documents,
+   documents defusedxml refuses and documents whose root has no child elements all convert to "absence"
+   (the last two since the repair D37; before it they escaped as DefusedXmlException / AttributeError, were not
+   remembered, and every waiting lookup downloaded again). *)
+Theorem C18_escaping_exceptions : forall (o : outcome) (x : xcls), convert o <> RExc x.
+Proof. exact convert_never_raises. Qed.
 Print Assumptions C18_escaping_exceptions.
 
 (* ---- non-vacuity: concrete schedules ------------------------------------------------------------------- *)
